@@ -146,6 +146,13 @@ def conv(name, lon, lat, par):
     # re-set in place (a caller may legitimately keep and update its
     # objects): results must not depend on the objects' history
     _POOL["n"] += 1
+    # one call in three gets the longitude in its other legitimate
+    # representation, lon - 360 in (-360, 0): the same direction (only where
+    # the subtraction is exact, so that it is the same number of degrees too)
+    if _POOL["n"] % 3 == 0 and 0.0 < lon < 360.0 \
+            and (lon - 360.0) + 360.0 == lon:
+        lon = lon - 360.0
+        _POOL["neg"] = _POOL.get("neg", 0) + 1
     if _POOL["n"] % 2:
         if "a" not in _POOL:
             _POOL["a"], _POOL["b"], _POOL["p"] = Angle(1.0), Angle(2.0), \
@@ -542,3 +549,5 @@ def run(mon, spec):
             p = [lon1, max(-80.0, min(80.0, lat1)), offs]
             mon.begin("circle", p)
             case_circle(mon, *p)
+    mon.hit("longitudes-given-in-(-360,0)", _POOL.get("neg", 0))
+    _POOL["neg"] = 0
